@@ -434,6 +434,32 @@ fn cross_decode(ctx: &mut Ctx, rng: &mut Rng, handle: &DynamicColumnHandle, exp_
             }
             None => false,
         };
+        // range lookup on the compact values: model (range conversion incl. gaps) vs real
+        if ok && !ips.is_empty() && ips.len() <= 1500 {
+            if let Ok(DynamicColumn::IpAddr(col)) = handle.open() {
+                let mut r4 = Rng(crate::report::fnv(values) ^ 0x1b1b);
+                for round in 0..2 {
+                    let a = ips[r4.usize_below(ips.len())];
+                    let b = ips[r4.usize_below(ips.len())];
+                    let (mut lo, mut hi) = (a.min(b), a.max(b));
+                    if round == 1 { lo = lo.saturating_sub(r4.below(1000) as u128 + 1); hi = hi.saturating_add(r4.below(1000) as u128 + 1); }
+                    if r4.chance(1, 5) { lo = hi.saturating_add(1); hi = lo.saturating_add(r4.below(50) as u128); } // possibly inside a gap
+                    let s = r4.usize_below(ips.len());
+                    let e = s + r4.usize_below(ips.len() - s + 1);
+                    let mut pos = vec![];
+                    col.values.get_row_ids_for_value_range(Ipv6Addr::from_u128(lo)..=Ipv6Addr::from_u128(hi), s as u32..e as u32, &mut pos);
+                    let brute: Vec<u32> = (s..e).filter(|&i| ips[i] >= lo && ips[i] <= hi).map(|i| i as u32).collect();
+                    if pos != brute {
+                        oracle(ctx, "C08:ip-range-lookup", format!("{what}: get_row_ids_for_value_range({lo:#x}..={hi:#x}, {s}..{e}) = {} rows, brute force {}", pos.len(), brute.len()), case);
+                    }
+                    let m = ctx.model.ask(&format!("C08 range128 {} {lo} {hi} {s} {e}", hex(values)));
+                    if m != nat_list(&pos) {
+                        modelv(ctx, "C08:ip-range-lookup-model", format!("{what}: model compact-space range lookup ({lo:#x}..={hi:#x}, {s}..{e}) differs from the real result"), case);
+                    }
+                    ctx.report.count("columnar:ip-range-lookup-model-compared");
+                }
+            }
+        }
         if ok { ctx.report.count("cross-decode:codec:compact-space"); } else {
             modelv(ctx, "C08:ip-column-cross-decode", format!("{what}: model decode of the real compact-space column differs from the indexed addresses ({})", &r[..r.len().min(60)]), case);
         }
